@@ -54,13 +54,19 @@ def restyle(text, rng):
                 parts.append(f'{k}="{v}"')
         sep = rng.choice([' ', '\n     ', '  '])
         return f'<{name} ' + sep.join(parts) + '>'
-    return re.sub(r'<(Lexicon|LexiconExtension|Extends|Requires)\s([^<>]*?)(?<!/)>', fix, text)
+    out = re.sub(r'<(Lexicon|LexiconExtension|Extends|Requires)\s([^<>]*?)(?<!/)>', fix, text)
+    if rng.random() < 0.6:
+        # comments are legal anywhere between elements: right after the start tag of a lexicon (i.e. before
+        # <Extends> / <Requires>), and before the first entry
+        note = rng.choice(['<!-- generated -->', '<!-- extends: see below -->', '<!--x-->\n  <!-- y -->'])
+        out = re.sub(r'(<Lexicon(?:Extension)?\s[^<>]*?(?<!/)>)', lambda m: m.group(1) + '\n    ' + note, out)
+    return out
 
 
 def mutate(text, v, rng):
     """one single-fault mutation; returns (kind, new text, expected)"""
     lines = text.split('\n')
-    kind = rng.choice(['remove-attr', 'rename-elem', 'other-version-elem', 'dup-single', 'unbalanced', 'truncated', 'header'] + (['header'] * 1))
+    kind = rng.choice(['remove-attr', 'rename-elem', 'other-version-elem', 'dup-single', 'unbalanced', 'truncated', 'header', 'lexicon-key'] + (['header'] * 1))
     if kind == 'header':
         f = rng.choice(HEADER_FAULTS)
         h1, h2 = lines[0], lines[1]
@@ -91,6 +97,13 @@ def mutate(text, v, rng):
             valid = True
         return 'header:' + f, '\n'.join(lines), 'valid' if valid else 'invalid-header'
     body = '\n'.join(lines)
+    if kind == 'lexicon-key':
+        # the identifying attributes of a lexicon: the pre-scan and the full load must both reject the file
+        ms = list(re.finditer(r'(<Lexicon(?:Extension)?\b[^>]*?)\s(id|version)="[^"]*"', body))
+        if ms:
+            m = rng.choice(ms)
+            return f'remove-attr:lexicon@{m.group(2)}', body[:m.start()] + m.group(1) + body[m.end():], 'invalid'
+        return 'none', body, 'valid'
     if kind == 'remove-attr':
         cands = [(r'(<Lexicon(?:Extension)?\b[^>]*?)\s(id|version|label|language|email|license)="[^"]*"', 'lexicon'),
                  (r'(<LexicalEntry\b[^>]*?)\s(id)="[^"]*"', 'entry'), (r'(<Lemma\b[^>]*?)\s(writtenForm|partOfSpeech)="[^"]*"', 'lemma'),
